@@ -3,8 +3,8 @@
 
 MAPPER_ASSUME = [
     "the cfg(ellbur_totalmapper_verif) snapshot hook copies the mapper state faithfully",
-    "besides the random walks, a share of the generated layouts with at most 7 (quick) / 8 (thorough) keys in the alphabet is explored exhaustively: breadth-first over every reachable (mapper state, monitor state) with at most 3 / 4 keys held, every operation applied once in every state (counters exhaustive_*)",
-    "histories are sampled (seeded random walks with coverage-guided restarts); most layouts are small (1-7 mappings over 5-9 keys, at most 4 / 5 keys held), one in twenty is wide (generator D: up to 10 mappings, outputs of up to 18 keys, repeat chords of up to 12 keys, up to 20 keys held)",
+    "besides the random walks, every third (quick) / second (thorough) generated layout with at most 7 / 8 trigger keys is explored exhaustively: breadth-first over every reachable (mapper state, monitor state) with at most 3 / 4 keys held, every press and release of every trigger key, of one or two output-only keys and of a foreign key, ill-formed events and release-all applied once in every state; the tiny absorbing-centric layouts of generator E with four keys held (counters exhaustive_*)",
+    "histories are sampled (seeded random walks with coverage-guided restarts); most layouts are small (1-7 mappings over 5-9 keys, at most 4 / 5 keys held), one in twenty is wide (generator D: up to 10 mappings, outputs of up to 18 keys, repeat chords of up to 12 keys, up to 20 keys held); generator C draws its modifiers from a palette of 2-3 per layout, generator E is absorbing-centric; one layout in eight gives all its Special repeats the same keys and timing",
     "keys: per layout a handful, across layouts the whole key-code space (all eight modifiers, non-modifier layer keys, media and vendor keys, codes above 255 and above 561, families of keys that coincide in their low 7 or 8 bits)",
 ]
 
